@@ -122,6 +122,61 @@ func runCase(kind, note string, d *desc, F []string, mk func() []*request) sexp.
 	return sexp.T("case", head...)
 }
 
+// the apifu route (see apifu.go)
+func runApifuCase(F []string) sexp.Node {
+	d := apifuDesc()
+	e := erase(d, F)
+	head := []sexp.Node{sexp.T("kind", sexp.Sym("apifu")), sexp.T("note", sexp.Str("")), d.sexp(), sexp.T("features", strs(F)...),
+		sexp.T("all", strs(alphabet)...)}
+	on := subset([]string{"fa"}, F)
+	all := graphql.NewFeatureSet(alphabet...)
+	logA, logB, logC := &calls{}, &calls{}, &calls{}
+	apiA, err := apifuAPI(true, false, logA)
+	if err != nil {
+		return sexp.T("case", append(head, sexp.T("accepted", sexp.Bool(false)))...)
+	}
+	head = append(head, sexp.T("accepted", sexp.Bool(true)), sexp.T("erased", e.sexp()))
+	apiB, err := apifuAPI(on, true, logB)
+	if err != nil {
+		return sexp.T("case", append(head, sexp.T("erased-rejected", sexp.Str(err.Error())))...)
+	}
+	a := &side{api: apiA, features: graphql.NewFeatureSet(F...), log: logA}
+	b := &side{api: apiB, features: all, log: logB}
+	names := probeNames(d)
+	reqs := []*request{{kind: "introspect", query: probeQuery(names), names: names}, {kind: "stdintro", query: string(introspection.Query)}}
+	for _, q := range apifuDocs {
+		rq := &request{kind: "doc", query: q, tags: []string{"apifu"}}
+		if q[0] == 'q' {
+			rq.vars = map[string]interface{}{"n": 1}
+		}
+		reqs = append(reqs, rq)
+	}
+	rs := make([]sexp.Node, len(reqs))
+	for i, rq := range reqs {
+		rs[i] = rq.sexp(a, b)
+	}
+	head = append(head, sexp.T("requests", rs...))
+	if !on {
+		// the Config a developer writes without the gated connection does not mention PageInfo at all
+		apiC, err := apifuAPI(false, false, logC)
+		if err != nil {
+			panic(err)
+		}
+		c := &side{api: apiC, features: all, log: logC}
+		o := c.run("{ __schema { types { name } } }", nil)
+		var reg []string
+		sc, _ := o.data.get("__schema")
+		ts, _ := sc.get("types")
+		for _, t := range ts.vals {
+			reg = append(reg, t.str("name"))
+		}
+		sort.Strings(reg)
+		head = append(head, sexp.T("physical", sexp.T("names", strs(names)...), sexp.T("registered", strs(reg)...),
+			sexp.T("a", reqs[0].observe(a).List...), sexp.T("c", reqs[0].observe(c).List...)))
+	}
+	return sexp.T("case", head...)
+}
+
 func randomRequests(r *rng.R, d *desc, std bool, nChains, nDocs int) []*request {
 	names := probeNames(d)
 	reqs := []*request{{kind: "introspect", query: probeQuery(names), names: names}}
@@ -171,8 +226,13 @@ func main() {
 				})
 			}
 		}
+		// 1b. the apifu route: Config.Features plumbing, a gated apifu.Connection
+		for _, F := range subsetsOf([]string{"fa", "fb"}) {
+			F := F
+			h.Case(func(*rng.R) sexp.Node { return runApifuCase(F) })
+		}
 		// 2. random schemas obeying the construction rules
-		n, nh := 700, 500
+		n, nh := 1500, 1800
 		if h.Thorough() {
 			n, nh = 20000, 10000
 		}
